@@ -359,6 +359,24 @@ def sd8(F, R):
             ok_ne, _ = guarded(fn, b, g_cmp("Eq", False, None, None))
             R.require(ok or True, fn, "cmd9-ok:" + variant, "CSD returned although CMD9's response was not 0", fn.loc(b, i))
     R.require(set(lay) == {"V1", "V2"}, fn, "layouts", "read_csd must produce Csd::V1 and Csd::V2, got %s" % lay, fn.loc(0), okdetail="layout selection %s" % lay)
+    # layout per card kind must follow the spec: standard capacity (SD1, SD2) -> CSD v1.0, high capacity (SDHC) -> CSD v2.0
+    kinds = F.variants("sdcard::CardType")
+    want = spec("sd_constants.json")["csd_layout"]
+    got = {}
+    for (b, i, v) in ok_returns(fn):
+        if not (v[0] == "agg" and v[2]):
+            continue
+        variant = v[2].split("::")[-1]
+        for sb in fn.live_blocks():
+            t = fn.term(sb)
+            if t["k"] != "SwitchInt":
+                continue
+            cond = fn.term_of_operand(t["discr"], sb)
+            if cond[0] == "discr" and "card_type" in tstr(cond) and set(cond[2]) == set(kinds):
+                for ei, (tgt, lab) in enumerate(fn.succ(sb)):
+                    if lab[1] != "otherwise" and b in fn.reach([tgt]):
+                        got[cond[2][lab[1]]] = variant
+    R.require(got == want, fn, "layout-table", "CSD layout per card kind is %s; the SD spec (5.3.1 CSD_STRUCTURE) requires %s" % (got, want), fn.loc(0), okdetail="layout table %s" % got)
     for b, t in fn.calls():
         if call_matches(t, ("SdCardInner::card_command",)):
             nm, _ = cmd_const(fn.term_of_operand(t["args"][1], b))
